@@ -209,7 +209,7 @@ theorem slideStep_merge_pick (fuel : Nat) (s : VM) (f : FUid) (h : HUid) (i : In
         rw [applyOp_ok _ t hgd]
         simp only [modInstX, modifyRest, modify, modifyGet, MonadStateOf.modifyGet, EStateM.modifyGet]
         refine ⟨_, { xt with forkUids := OMap.erase c xt.forkUids }, rfl, ?_, rfl, rfl, ?_, rfl, rfl,
-        fun k hk => by simp only [OMap.lookup_erase, hk, if_false], rfl⟩
+        fun k hk => by simp only [OMap.lookup_erase, hk, if_false], rfl, rfl⟩
         · exact { hi := findInst_delHead t.ixs.ix f c it Ft.hi, hx := lookup_modify_self f _ t.r.fx xt Ft.hx, hc := Ft.hc }
         · intro k _; rfl
       · obtain ⟨hgs, hss⟩ := setHeadStatus_inactive_ok t f c it cd Ft.hi hcd hin
@@ -223,7 +223,7 @@ theorem slideStep_merge_pick (fuel : Nat) (s : VM) (f : FUid) (h : HUid) (i : In
         rw [applyOp_ok _ _ hgd]
         simp only [modInstX, modifyRest, modify, modifyGet, MonadStateOf.modifyGet, EStateM.modifyGet]
         refine ⟨_, { xt with forkUids := OMap.erase c xt.forkUids }, rfl, ?_, rfl, rfl, ?_, rfl, rfl,
-        fun k hk => by simp only [OMap.lookup_erase, hk, if_false], rfl⟩
+        fun k hk => by simp only [OMap.lookup_erase, hk, if_false], rfl, rfl⟩
         · refine { hi := ?_, hx := lookup_modify_self f _ t.r.fx xt Ft.hx, hc := Ft.hc }
           have := findInst_delHead _ f c _ his
           rw [filter_modifyHead it c (fun y => { y with status := HeadStatus.inactive, elem := none }) (fun _ => rfl)] at this
@@ -337,7 +337,7 @@ theorem slideStep_merge_pick (fuel : Nat) (s : VM) (f : FUid) (h : HUid) (i : In
         rw [applyOp_ok _ t hgd]
         simp only [modInstX, modifyRest, modify, modifyGet, MonadStateOf.modifyGet, EStateM.modifyGet]
         refine ⟨_, { xt with forkUids := OMap.erase c xt.forkUids }, rfl, ?_, rfl, rfl, ?_, rfl, rfl,
-        fun k hk => by simp only [OMap.lookup_erase, hk, if_false], rfl⟩
+        fun k hk => by simp only [OMap.lookup_erase, hk, if_false], rfl, rfl⟩
         · exact { hi := findInst_delHead t.ixs.ix f c it Ft.hi, hx := lookup_modify_self f _ t.r.fx xt Ft.hx, hc := Ft.hc }
         · intro k _; rfl
       · obtain ⟨hgs, hss⟩ := setHeadStatus_inactive_ok t f c it cd Ft.hi hcd hin
@@ -351,7 +351,7 @@ theorem slideStep_merge_pick (fuel : Nat) (s : VM) (f : FUid) (h : HUid) (i : In
         rw [applyOp_ok _ _ hgd]
         simp only [modInstX, modifyRest, modify, modifyGet, MonadStateOf.modifyGet, EStateM.modifyGet]
         refine ⟨_, { xt with forkUids := OMap.erase c xt.forkUids }, rfl, ?_, rfl, rfl, ?_, rfl, rfl,
-        fun k hk => by simp only [OMap.lookup_erase, hk, if_false], rfl⟩
+        fun k hk => by simp only [OMap.lookup_erase, hk, if_false], rfl, rfl⟩
         · refine { hi := ?_, hx := lookup_modify_self f _ t.r.fx xt Ft.hx, hc := Ft.hc }
           have := findInst_delHead _ f c _ his
           rw [filter_modifyHead it c (fun y => { y with status := HeadStatus.inactive, elem := none }) (fun _ => rfl)] at this
